@@ -1242,7 +1242,7 @@ fn graph(args: &[String]) {
     }
     out_line(&json!({"summary": true, "pepper": pepper, "edges_total": n_edges, "edges_run": edges_run, "argon_edges_skipped": argon_skipped,
         "states_total": states.len(), "states_reached": reached, "calls": calls, "mismatches": n_mism, "mismatches_refresh_ignores_expiry": n_rie, "mismatches_expiry_overflow": n_eo, "first": mism, "first_refresh_ignores_expiry": mism_rie,
-        "unknown_token_lengths": w.unk_tok_lens.len(), "drift_results": n_drift, "drift_state": n_soft, "first_drift_results": drifts, "first_drift_state": soft, "argon_edges_run": argon_calls,
+        "unknown_token_lengths": w.unk_tok_lens.len(), "token_len_min": all_tokens.iter().map(|t| t.chars().count()).min().unwrap_or(0), "drift_results": n_drift, "drift_state": n_soft, "first_drift_results": drifts, "first_drift_state": soft, "argon_edges_run": argon_calls,
         "classes": classes, "samples": samples, "tokens_issued": all_tokens.len(), "token_dups": dup_tokens, "token_bad_format": bad_format,
         "walks": walks, "walk_steps": walk_steps, "walk_mismatches": walk_mism, "bfs_s": bfs_s, "argon_s": argon_s, "edges_nontrivial": edges_nontrivial}));
     std::process::exit(0);
